@@ -341,6 +341,16 @@ def jobs(tier, seed):
             for wr in writers if tier == "thorough" else writers[:2]:
                 for cmp_ in cmps:
                     out.append(({"m": m, "lru": lru, "om": 0}, full, [[cmp_], wr], 2 if tier == "thorough" else 1))
+    # an operation that rebuilds the cache's internals (clear) pre-empted while it holds the lock, a second thread already
+    # waiting for that lock, a third arriving later: all three must still exclude each other
+    for lru in (False, True):
+        for others in ([{"op": "setitem", "k": 3, "v": 3}, {"op": "setitem", "k": 4, "v": 4}],
+                       [{"op": "update", "arg": [{"k": 1, "v": 2}, {"k": 3, "v": 1}]}, {"op": "setdefault", "k": 2, "d": 5}]) if tier == "thorough" else \
+                ([{"op": "setitem", "k": 3, "v": 3}, {"op": "setitem", "k": 4, "v": 4}],):
+            # (two pre-emptions are needed to see two of them inside at once: one in the holder, one in the released waiter;
+            # about 13,000 executions per program - thorough tier only for the deep bound)
+            deep = tier == "thorough" and others[0]["op"] == "setitem"
+            out.append(({"m": 2, "lru": lru, "om": 0}, full, [[{"op": "clear"}], [others[0]], [others[1]]], 2 if deep else 1))
     for _ in range(12 if tier == "thorough" else 16):      # three threads (thorough: with one pre-emption, ~850 executions each)
         cfg = dict(rng.choice(cfgs))
         progs = [[rng.choice(OPS)] for _ in range(3)]
